@@ -433,6 +433,10 @@ func (sp *StakePool) DistributeRewardsRandN(
 	if err != nil {
 		return err
 	}
+	// float64 rounding can yield more than the value itself (value > 2^53, ratio 1)
+	if serviceCharge > value {
+		serviceCharge = value
+	}
 	if serviceCharge > 0 {
 		reward := serviceCharge
 		sr, err := currency.AddCoin(sp.Reward, reward)
@@ -613,6 +617,10 @@ func (sp *StakePool) DistributeRewards(
 	serviceCharge, err := currency.Float64ToCoin(sp.Settings.ServiceChargeRatio * fValue)
 	if err != nil {
 		return err
+	}
+	// float64 rounding can yield more than the value itself (value > 2^53, ratio 1)
+	if serviceCharge > value {
+		serviceCharge = value
 	}
 	if serviceCharge > 0 {
 		reward := serviceCharge
